@@ -118,6 +118,21 @@ func (its *DatatypeManager) SyncAll() errors.OrdaError {
 
 // syncIfNeedPull enables the datatype of the specified key and sseq to be synchronized if needed.
 func (its *DatatypeManager) syncIfNeedPull(data iface.WiredDatatype, sseq uint64) errors.OrdaError {
+	if !data.NeedPull(sseq) {
+		return nil
+	}
+	// one sync of this client at a time: wait for the one in flight (it may already bring
+	// what the notification announces) instead of running a second one beside it.
+	if err := its.sema.Acquire(its.ctx.Ctx(), 1); err != nil {
+		return errors.ClientSync.New(its.ctx.L())
+	}
+	defer func() {
+		its.sema.Release(1)
+		if data.NeedPush() {
+			// transactions delivered meanwhile found the semaphore taken and did not sync
+			its.DeliverTransaction(data)
+		}
+	}()
 	if data.NeedPull(sseq) {
 		its.ctx.L().Infof("need to sync after notification: %s (sseq:%d)", data.GetKey(), sseq)
 		return its.sync(data)
